@@ -1,9 +1,56 @@
-(* Props/C08.v — Exported gradient waveforms equal an event-by-event rendering. *)
-From Coq Require Import ZArith QArith Qabs List Bool Arith.
-From PV Require Import Base.QUtil Base.PWL Gen.GenExport Model.Export.
+(* Props/C08.v — Exported gradient waveforms equal an event-by-event rendering.
+   Only statements, each closed by [exact] of a lemma from Proofs/ExportProofs.v, with Print Assumptions. *)
+From Coq Require Import ZArith QArith Qabs List Bool Arith Lia Lqa.
+From PV Require Import Base.QUtil Base.PWL Gen.GenExport Model.Export Proofs.ExportProofs.
 Import ListNotations.
 Open Scope Q_scope.
 
+(* For EVERY list of pieces (any number of blocks, any corner counts) that is edge consistent
+   (every piece has corner times at least eps apart; consecutive pieces either touch and agree in value
+   there, or are more than eps apart and zero at the facing ends), the joined corner list built by
+   Sequence.waveforms() — including the dropped duplicate boundary sample — evaluates, at every time
+   inside a piece, to that piece, and to zero at every time that is inside no piece. *)
+Theorem C08_waveform_is_rendering : forall ps : list pwl, EdgeConsistent ps ->
+  (forall q, In q ps -> forall t, inside q t -> eval (join ps) t == eval q t) /\
+  (forall t, (forall q, In q ps -> ~ inside q t) -> eval (join ps) t == 0).
+Proof. exact join_is_rendering. Qed.
+Print Assumptions C08_waveform_is_rendering.
+
+(* ... and each piece is the straightforward rendering of its event (trapezoid formula / interpolated
+   corner list, 0 outside), shifted by the block start. *)
+Theorem C08_piece_is_rendering : forall raster start g p,
+  piece raster start g = Some p -> grad_wf g -> forall t, eval p t == render raster g (t - start).
+Proof. exact piece_is_rendering. Qed.
+Print Assumptions C08_piece_is_rendering.
+
+(* The code's own monotonicity check never fires on an edge-consistent sequence, and the exported
+   times are strictly increasing. *)
+Theorem C08_waveform_times_strict : forall ps : list pwl, EdgeConsistent ps ->
+  mono_ok (times (join ps)) = true /\ sorted_strict (times (join ps)).
+Proof. exact join_times_strict. Qed.
+Print Assumptions C08_waveform_times_strict.
+
+(* Non-vacuity: an edge-consistent list with a non-zero junction and a gap; the duplicate is dropped. *)
 Example C08_join_example :
   join [[(0, 0); (1, 5)]; [(1, 5); (2, 0)]; [(3, 0); (4, 1)]] = [(0, 0); (1, 5); (2, 0); (3, 0); (4, 1)].
 Proof. vm_compute. reflexivity. Qed.
+
+Example C08_edge_consistent_example :
+  EdgeConsistent [[(0, 0); (1, 5)]; [(1, 5); (2, 0)]; [(3, 0); (4, 1)]].
+Proof.
+  split.
+  - repeat constructor; unfold eps; cbn; try lia; try (unfold Qle; cbn; lia).
+  - cbn [chain]. split; [left|split; [right|exact I]]; unfold tlast, tfirst, vlast, vfirst, eps; cbn;
+      repeat split; try reflexivity; try (unfold Qlt; cbn; lia).
+Qed.
+
+(* Where the statement would be false without the hypothesis: pieces that touch at different values
+   (what add_block must refuse, C05) are NOT rendered faithfully — the later event's first value is lost. *)
+Theorem C08_inconsistent_edge_refuted :
+  exists ps q t, In q ps /\ inside q t /\ ~ eval (join ps) t == eval q t.
+Proof.
+  exists [[(0, 0); (1, 5)]; [(1, 7); (2, 0)]], [(1, 7); (2, 0)], 1.
+  split; [right; left; reflexivity|]. split; [split; unfold tfirst, tlast; cbn; unfold Qle; cbn; lia|].
+  vm_compute. discriminate.
+Qed.
+Print Assumptions C08_inconsistent_edge_refuted.
